@@ -68,6 +68,15 @@ def check(run):
     _r3(run, mods['adf15'])
     _r4(run, mods)
     _r5(run, mods)
+    from ._fresh import fresh_per_iteration
+    nfresh = 0
+    for fname in ('_thermalcx_adf15_2dto3d_converter', '_notation_adf11_adas2cherab'):
+        if fname in inst.functions:
+            nfresh += fresh_per_iteration(run, 'C08-R6', 'install', inst, inst.functions[fname], describe=(nfresh == 0))
+    for m_ in mods.values():
+        for fname, fn_ in m_.functions.items():
+            nfresh += fresh_per_iteration(run, 'C08-R6', m_.name.split('.')[-1], m_, fn_, describe=False)
+    run.floor('C08-R6', 1)
     from ..cachekey import check_caches
     check_caches(run, list(mods.values()) + [inst], 'C08-K')
 
@@ -1036,6 +1045,10 @@ _A22 = PD + 'adf22.py'
 _UT = PD + 'utility.py'
 _IN = 'cherab/openadas/install.py'
 MUTANTS = [
+    dict(name='thermalcx-converter-reuses-one-array', file=_IN, edits=[
+        dict(file=_IN, find="    new_rates = RecursiveDict()\n    for element, charge_states in rates.items():\n        for charge, transitions in charge_states.items():\n            for transition, rate in transitions.items():\n                data = np.empty((len(rate['ne']), len(rate['te']), 2))",
+             replace="    new_rates = RecursiveDict()\n    data = None\n    for element, charge_states in rates.items():\n        for charge, transitions in charge_states.items():\n            for transition, rate in transitions.items():\n                if data is None or data.shape != (len(rate['ne']), len(rate['te']), 2):\n                    data = np.empty((len(rate['ne']), len(rate['te']), 2))")],
+         expect='C08-R6'),
     dict(name='parser-key-renamed', file=_A15, find="return {'ne': density, 'te': temperature, 'rate': rates}", replace="return {'ne': density, 'te': temperature, 'rates': rates}", expect='C08-R'),
     dict(name='conversion-dropped', file=_A12, find="'ni': PerCm3ToPerM3.to(np.array(rate['DENSI'], np.float64)),", replace="'ni': np.array(rate['DENSI'], np.float64),", expect='C08-R2'),
     dict(name='conversion-doubled', file=_IN, find='rate_cherab[i][j + charge_correction]["te"] = 10**rate_adas[i][j]["te"]', replace='rate_cherab[i][j + charge_correction]["te"] = 10**(10**rate_adas[i][j]["te"])', expect='C08-R2'),
